@@ -1,6 +1,7 @@
 import Ecal.Lemmas.PriorityBook
 import Ecal.Lemmas.PriorityHeapPop
 import Ecal.Lemmas.PriorityHeapPush
+import Ecal.Lemmas.PriorityCascade
 /-!
 # C10 — priorities order execution; the first failing rule ends a trigger sequence
 
@@ -193,6 +194,38 @@ theorem fail_first_after_reload (sort : List Rule → List Rule) (p : Proc) (hp 
 
 example : processRulesAfter stableSort { flag := true } [.finish, .reset, .addRules, .start]
     [⟨1, 1, true⟩, ⟨2, 2, false⟩] = ([⟨1, 1, true⟩], [⟨1, 1, true⟩]) := by decide
+
+/-- **Equal priorities may run in any order.** `sort.Sort` promises a permutation in
+    non-decreasing order and nothing about ties, and the input order comes out of a map iteration;
+    the property fixes only the priority numbers. For two admissible sorts the *priorities* of the
+    sorted rules coincide position by position, so with the flag off the priority sequence of the
+    started actions is the same whichever tie order the sort picked. (With the flag on the
+    sequence of priorities up to the first failure depends on the tie order only if rules of one
+    priority differ in failing; the correspondence therefore compares priority sequences and
+    generates equal-priority groups with a uniform outcome.) -/
+theorem tie_order_is_free (sort₁ sort₂ : List Rule → List Rule) (h₁ : IsPrioSort sort₁)
+    (h₂ : IsPrioSort sort₂) (rules : List Rule) :
+    (processRules sort₁ false rules).1.map (·.prio) = (processRules sort₂ false rules).1.map (·.prio) := by
+  rw [(fail_first_prefix sort₁ rules).2, (fail_first_prefix sort₂ rules).2]
+  have hp : ((sort₁ rules).map (·.prio)).Perm ((sort₂ rules).map (·.prio)) :=
+    ((h₁.perm rules).trans (h₂.perm rules).symm).map _
+  have s1 : ((sort₁ rules).map (·.prio)).Pairwise (· ≤ ·) := List.pairwise_map.mpr (h₁.sorted rules)
+  have s2 : ((sort₂ rules).map (·.prio)).Pairwise (· ≤ ·) := List.pairwise_map.mpr (h₂.sorted rules)
+  exact hp.eq_of_pairwise (fun a b _ _ h1 h2 => Int.le_antisymm h1 h2) s1 s2
+
+/-- flag on: when a rule fails, the first failing rule *was started* (so whatever events its action
+    added before returning the error are in the queue) and it is the last rule started -/
+theorem failing_rule_was_started (sort : List Rule → List Rule) (rules : List Rule) (r : Rule)
+    (h : (sort rules).find? (·.fails) = some r) :
+    r ∈ (processRules sort true rules).1 ∧ (processRules sort true rules).1.getLast? = some r ∧
+    (processRules sort true rules).2 = [r] := by
+  rw [(fail_first_prefix sort rules).1]
+  rcases uptoFirstFail_spec (sort rules) with ⟨h1, _⟩ | ⟨pre, r', post, _, _, _, h4, h5⟩
+  · have := List.find?_some h
+    have hm := List.mem_of_find?_eq_some h
+    rw [h1 r hm] at this; cases this
+  · rw [h5] at h; cases h
+    simp [h4, h5]
 
 /-! ## the per-cascade queue -/
 
@@ -471,6 +504,46 @@ theorem real_pop_is_min {h : HPQ} (hr : ReachableH h) :
     have : (x :: q'.items).Perm q.items := by
       rw [he]; exact (List.perm_cons_erase hmem).symm
     exact ((r'.items.cons x).trans this).trans r.items.symm
+
+/-! ## events added by a failing rule -/
+
+open Cascade in
+/-- **Events a rule added are still processed when the rule fails.** For every script (any tree of
+    events, priorities, skipped events, failing rules; both variants of the bookkeeping) run by
+    the worker loop of the cascade model: if the action of event `i` was started, every triggering
+    event `c` that this action adds is started as well — whether or not `i`'s rule then returns
+    an error — and a failing `i` is in the error report. The queue is empty at the end. -/
+theorem children_of_failing_rule_still_run (cfg : Book.Cfg) (nodes : List Node) (i c : Nat)
+    (ni nc : Node) (hi : nodes[i]? = some ni) (hc : nodes[c]? = some nc)
+    (hpar : nc.parent = some i) (htrig : nc.trig = true)
+    (hstart : i ∈ (runScript cfg nodes).started.map (·.1)) :
+    c ∈ (runScript cfg nodes).started.map (·.1) ∧
+    (ni.fails = true → i ∈ (runScript cfg nodes).errs) ∧
+    (runScript cfg nodes).q.items = [] := by
+  obtain ⟨hI, hq⟩ := runScript_spec cfg nodes
+  have hq' : (runScript cfg nodes).q.items = [] := by simpa [qv] using hq
+  refine ⟨?_, ?_, hq'⟩
+  · rcases hI.clo i hstart c nc hc hpar htrig with h | h
+    · exact h
+    · rw [hq] at h; cases h
+  · intro hf
+    exact hI.err i hstart (by simp [hi, hf])
+
+/-- every event added from outside that triggers a rule is started; no event is started twice -/
+theorem cascade_runs_each_event_once (cfg : Book.Cfg) (nodes : List Cascade.Node) :
+    ((Cascade.runScript cfg nodes).started.map (·.1)).Nodup ∧
+    ∀ c nc, nodes[c]? = some nc → nc.parent = none → nc.trig = true →
+      c ∈ (Cascade.runScript cfg nodes).started.map (·.1) := by
+  obtain ⟨hI, _⟩ := Cascade.runScript_spec cfg nodes
+  refine ⟨hI.n1, ?_⟩
+  intro c nc hc hp ht
+  exact Cascade.external_started cfg nodes c nc hc hp ht
+
+example : ((Cascade.runScript Book.current
+    [⟨none, none, true, true⟩, ⟨some 0, some 3, true, false⟩, ⟨some 0, some 1, true, false⟩]).started.map (·.1),
+    (Cascade.runScript Book.current
+    [⟨none, none, true, true⟩, ⟨some 0, some 3, true, false⟩, ⟨some 0, some 1, true, false⟩]).errs)
+    = ([1, 2, 0], [0]) := by decide
 
 /-! ## the root monitor's highest-priority report -/
 
